@@ -370,7 +370,7 @@ func init() {
 		ID:    "C05",
 		Level: "model_checking",
 		Rule: "threads: the real SyncWAL loop + W1 (two writes to ONE fixed interval: commit order = program order) + W2 (variable write), after one acknowledged un-checkpointed write; timers: WAL flush (<=1 early fire), checkpoint (<=1, rotation every checkpoint; second scenario <=2 with rotation every 2nd checkpoint plus a Shutdown thread); " +
-			"ALL interleavings with <=1 deviation (thorough: 2); for every DISTINCT device log EVERY crash prefix is restarted through the real startup path (recoveries memoised by image hash) and judged: acknowledged commits recovered, the later of two commits to one interval wins, nothing un-issued appears; " +
+			"ALL interleavings with <=2 deviations (thorough: 3, ended by the wall-clock guard with exhaustive:false if not completed); for every DISTINCT device log EVERY crash prefix is restarted through the real startup path (recoveries memoised by image hash) and judged: acknowledged commits recovered, the later of two commits to one interval wins, nothing un-issued appears; " +
 			"every log is also run through the WAL protocol model (rules R2 ack-after-synced-commit, R4 checkpoint-complete-after-primary-synced, R5 truncate-only-when-checkpointed): a broken rule makes the checker execute the power-loss witness for that rule and the end-to-end oracle decides. " +
 			"states = distinct (device image) recovered; transitions = scheduler steps; traces_validated = executions whose log the protocol model accepted or whose witness was judged",
 		Assume:   []string{"process-crash model for the enumerated prefixes; power loss only for rule-directed witnesses (quick) ", "UTC", "restart failures themselves are judged by C03"},
@@ -378,9 +378,9 @@ func init() {
 		Extra:    nil,
 	}, schedEnum(c05Scens, func(c *mc.Ctx, si int) int {
 		if c.Thorough() {
-			return 2
+			return 3
 		}
-		return 1
+		return 2
 	}), schedRun(c05Scens, "C05"))
 }
 
